@@ -1,7 +1,8 @@
 //go:build verif
 
-package dnssec
+package cache
 
+// (verbatim copy of harness/middleware__resolver__dnssec/zz_verif_c02_model_test.go with the package clause changed — keep in sync)
 // C02 — reference ZONE MODEL (ground truth) for the denial-of-existence check.
 //
 // Everything in this file is independent of sdns: names are label slices,
